@@ -123,13 +123,13 @@ def main(tier, seed, replay=None):
                 ("SolverComposite", lambda: claripy.SolverComposite())]
         ops1 = ["add", "add", "add", "branch", "branch", "satisfiable", "eval", "eval", "batch_eval", "min", "max", "solution",
                 "is_true", "simplify", "downsize", "eval_bool"]
-        n1 = 70 if tier == "quick" else 3000
+        n1 = 160 if tier == "quick" else 3000
         fail = solverhist.run_histories(claripy, drv, rng, facs, n1, 22, report=rep, tag="c14", ops=ops1, max_solvers=6)
         stats["tree_histories_exact"] += n1
         # ---------- (2) every frontend class: a solver of the tree answers like a replica of its own lineage ----------
         allfacs = facs + [("SolverReplacement", lambda: claripy.SolverReplacement()), ("SolverHybrid", lambda: claripy.SolverHybrid()),
                           ("SolverVSA", lambda: claripy.SolverVSA())]
-        n2 = 40 if tier == "quick" else 1500
+        n2 = 80 if tier == "quick" else 1500
         for it in range(n2):
             if fail:
                 break
